@@ -278,7 +278,7 @@ func (b *builder) body(ss *structSchema, v reflect.Value, p vpath) *bodyNode {
 	for _, a := range ss.attrs {
 		fv := v.Field(a.idx)
 		pr := true
-		if a.optional && isZero(fv) {
+		if !a.required() && isZero(fv) {
 			pr = !plain && b.rng.Intn(10) < 3 // an explicit zero is the same value
 		}
 		present[a] = pr
